@@ -80,4 +80,12 @@ def serveWire (F : Facts11) (r : Routes) (tns : Text) (mk : Text → Request) (w
   | none => .clientFault
   | some n => serve F r tns (mk n)
 
+/-- a dict document (JSON, YAML, MessagePack): `DictDocument.decompose_incoming_envelope` insists on exactly
+    one key; a document with no key or with several (naming several methods) is a client fault -/
+def serveDoc (F : Facts11) (r : Routes) (tns : Text) (keys : List WireName) : Resp :=
+  match keys with
+  | [k] => serveWire F r tns .key k
+  | k :: _ => if F.docSingleKey then .clientFault else serveWire F r tns .key k
+  | [] => .clientFault
+
 end SpyneModel.Dispatch
